@@ -5,6 +5,10 @@ Two families of cases:
                earlier, still suspended unifications, driven by a sequence of next / close / del
                operations; after EVERY operation the heap (which cells are bound, what every cell
                dereferences to) is compared with the UnifyGen model evaluated inside Coq.
+ kind 'sched': SCHEDULES over several unification generator objects with shared / aliased variables: creation
+               (unify / unify_arrays / v.unify is CALLED), next, close and drop are separate events in any
+               interleaving (created early - started late, non-LIFO closing); after EVERY event the heap is
+               compared with UnifyGen (whose `fresh` state is exactly "created, not started").
  kind 'prog' : a random Prolog program (facts, rules, conjunction, disjunction, =, \\=, if-then-else,
                \\+, cut, once, findall, call/N, recursion over lists, dynamic facts, a registered Python
                predicate) is compiled and loaded; a query is run and abandoned after k answers in one of
@@ -28,6 +32,7 @@ THEOREMS = ['C03_unify_gen_restores', 'C03_unify_gen_close_restores', 'C03_unify
             'C03_compiled_query_restores', 'C03_bounded_consumer_restores', 'C03_machine_refines_irsem', 'C03_machine_refines_irsem_fuel', 'C03_machine_refines_facts', 'C03_queryF_nofacts']
 RULE = ("kind 'gen': non-trivial if the generator bound >= 2 cells or ran under >= 1 stacked unification, and the "
         "operation sequence abandons it at a yield (close/del after a yielding next) or resumes it. "
+        "kind 'sched': non-trivial if some generator is started later than directly after its creation and >= 2 cells get bound. "
         "kind 'prog': non-trivial if the query made >= 2 bindings (>= 2 Variables bound at some answer) and "
         "(k < #answers or the run ended by an exception). Distinct by hash of the case.")
 TRUSTED_BASE = [
@@ -163,6 +168,8 @@ def _model_prog(case, io):
         g_list([g_term(a) for a in qargs]), g_nat(case['nvars']), g_nat(MAXANS), g_nat(io['k']))
 
 def model_expr(case, io=None):
+    if case['kind'] == 'sched':
+        return _model_sched(case)
     if case['kind'] != 'gen':
         return _model_prog(case, io)
     stk = g_list([g_pair(g_term(a), g_term(b)) for a, b in case['stack']])
@@ -220,6 +227,134 @@ def _impl_gen(case):
     leaked = sum(1 for v in E._VERIF_VARIABLES if v._is_bound)
     return {'res': ['ok', snap0, obs], 'yields': yields, 'restored_after_drop': after == snap0, 'leaked': leaked,
             'nvars_created': len(T.vars)}
+
+# ------------------------------------------------------------------ kind 'sched'
+
+def _sched_target(rng, nv):
+    v = lambda: ['v', rng.randrange(nv)]
+    q = rng.random()
+    if q < 0.30:
+        return ['unify', v(), rng.choice([['a', 'a'], ['a', 'b'], ['i', 1]])]
+    if q < 0.50:
+        return ['unify', v(), v()]
+    if q < 0.62:
+        i = rng.randrange(nv)
+        return ['var', i, rng.choice([['a', 'a'], ['a', 'b'], v(), ['f', 'f', [['v', (i + 1) % nv]]]])]
+    if q < 0.80:
+        a = terms.rand_term(rng, nv, 2, pvar=0.55)
+        b = terms.mutate_term(rng, a, nv) if rng.random() < 0.7 else terms.rand_term(rng, nv, 2, pvar=0.55)
+        return ['unify', a, b] if rng.random() < 0.5 else ['unify', b, a]
+    n = rng.choice([1, 2, 2, 3])
+    xs = [terms.rand_term(rng, nv, 1, pvar=0.7) for _ in range(n)]
+    ys = [terms.mutate_term(rng, x, nv) if rng.random() < 0.6 else terms.rand_term(rng, nv, 1, pvar=0.7) for x in xs]
+    return ['arrays', xs, ys]
+
+def _gen_sched_case(rng):
+    nv = rng.choice([2, 2, 3, 3, 4])
+    ng = rng.choice([2, 2, 3, 3, 4])
+    targets = [_sched_target(rng, nv) for _ in range(ng)]
+    style = rng.choice(['early', 'early', 'early-rev', 'nested', 'random', 'random'])
+    evs = []
+    if style in ('early', 'early-rev'):
+        # all iterators are created first and started afterwards
+        evs += [['create', i, targets[i]] for i in range(ng)]
+        order = list(range(ng))
+        if style == 'early-rev':
+            order.reverse()
+        elif rng.random() < 0.4:
+            rng.shuffle(order)
+        evs += [['next', i] for i in order]
+        for i in order:
+            if rng.random() < 0.3:
+                evs.append(['next', i])
+        closing = list(reversed(order)) if rng.random() < 0.6 else rng.sample(order, len(order))
+        evs += [[rng.choice(['close', 'close', 'drop', 'next']), i] for i in closing]
+    elif style == 'nested':
+        for i in range(ng):
+            evs.append(['create', i, targets[i]])
+            evs.append(['next', i])
+        for i in reversed(range(ng)):
+            evs.append([rng.choice(['close', 'drop', 'next']), i])
+    else:
+        created, live = [], []
+        todo = list(range(ng))
+        for _ in range(rng.choice([4, 6, 8, 10])):
+            r = rng.random()
+            if todo and (r < 0.35 or not live):
+                i = todo.pop(0)
+                evs.append(['create', i, targets[i]])
+                live.append(i)
+            elif live:
+                i = rng.choice(live)
+                op = rng.choice(['next', 'next', 'next', 'close', 'drop'])
+                evs.append([op, i])
+                if op == 'drop':
+                    live.remove(i)
+    dropped = set()
+    out = []
+    for e in evs:                       # nothing can be done with a dropped object
+        if e[1] in dropped:
+            continue
+        out.append(e)
+        if e[0] == 'drop':
+            dropped.add(e[1])
+    return {'kind': 'sched', 'events': out, 'nvars': nv, 'style': style}
+
+def _g_event(e):
+    if e[0] == 'create':
+        return '(EvCreate %s %s)' % (g_nat(e[1]), _g_target(e[2]))
+    if e[0] == 'next':
+        return '(EvNext %s)' % g_nat(e[1])
+    return '(EvClose %s)' % g_nat(e[1])
+
+def _model_sched(case):
+    return '(run_schedule 200 %s %s)' % (g_list([_g_event(e) for e in case['events']]), g_nat(case['nvars']))
+
+def _impl_sched(case):
+    from yldprolog import engine as E
+    yp = E.YP()
+    nv = case['nvars']
+    T = terms.ImplTerms([yp], nv)
+    snap0 = _snapshot(T, nv)
+    slots = {}
+    yields = {}
+    obs = []
+    for e in case['events']:
+        y = 0
+        op, i = e[0], e[1]
+        if op == 'create':
+            t = e[2]
+            if t[0] == 'unify':
+                g = E.unify(T.build(t[1]), T.build(t[2]))
+            elif t[0] == 'arrays':
+                g = E.unify_arrays([T.build(x) for x in t[1]], [T.build(x) for x in t[2]])
+            else:
+                g = T.var(t[1]).unify(T.build(t[2]))
+            slots[i] = iter(g)
+            g = None
+        elif op == 'next':
+            if slots.get(i) is not None:
+                try:
+                    next(slots[i])
+                    y = 1
+                    yields[i] = yields.get(i, 0) + 1
+                except StopIteration:
+                    pass
+        elif op == 'close':
+            if slots.get(i) is not None:
+                slots[i].close()
+        else:
+            slots[i] = None         # the only reference is dropped
+        obs.append([y, _snapshot(T, nv)])
+    mid = _snapshot(T, nv)
+    for i in sorted(slots, reverse=True):
+        if slots[i] is not None:
+            slots[i].close()
+    slots.clear()
+    after = _snapshot(T, nv)
+    leaked = sum(1 for v in E._VERIF_VARIABLES if v._is_bound)
+    return {'obs': obs, 'snap0': snap0, 'maxyields': max(list(yields.values()) or [0]), 'restored': after == snap0, 'leaked': leaked,
+            'maxbound': max([sum(b for b, _ in sn) for _, sn in obs] or [0])}
 
 # ------------------------------------------------------------------ kind 'prog'
 
@@ -600,6 +735,7 @@ def gen(rng, tier):
     ngen = 700 if tier == 'quick' else 12000
     nprog = 700 if tier == 'quick' else 12000
     cases = [_gen_gen_case(rng) for _ in range(ngen)]
+    cases += [_gen_sched_case(rng) for _ in range(500 if tier == 'quick' else 8000)]
     cases += [_gen_prog_case(rng) for _ in range(nprog)]
     return cases
 
@@ -659,6 +795,8 @@ def impl(case):
     try:
         if case['kind'] == 'gen':
             return _impl_gen(case)
+        if case['kind'] == 'sched':
+            return _impl_sched(case)
         return _impl_prog(case)
     except RecursionError:
         return ['cyc-or-deep']
@@ -722,7 +860,27 @@ def _compare_prog(case, io, mo):
             return None
     return r
 
+def _compare_sched(case, io, mo):
+    if mo is None or not isinstance(io, dict):
+        return None
+    if mo[0] == 'oof':
+        return 'model ran out of fuel (harness problem)'
+    exp = mo[1]
+    if any(o and o[0] == 'cyc' for o in exp):
+        return None                 # a binding that needs a cyclic term: unspecified
+    got = io['obs']
+    for k, (g, x) in enumerate(zip(got, exp)):
+        if g != x:
+            e = case['events'][k]
+            what = 'yielded' if g[0] != x[0] else 'heap'
+            return 'after event %d (%s %d): %s differs from the UnifyGen model (model: %r, observed: %r)' % (k, e[0], e[1], what, x, g)
+    if len(got) != len(exp):
+        return 'number of observations differs'
+    return None
+
 def compare(case, io, mo):
+    if case['kind'] == 'sched':
+        return _compare_sched(case, io, mo)
     if case['kind'] != 'gen':
         return _compare_prog(case, io, mo)
     if mo[0] == 'oof':
@@ -752,6 +910,12 @@ def compare(case, io, mo):
 
 def oracle(case, io):
     if not isinstance(io, dict):
+        return None
+    if case['kind'] == 'sched':
+        if io['maxyields'] > 1:
+            return 'a unification generator yielded more than once'
+        if not io['restored'] or io['leaked']:
+            return 'variables still bound after every generator of the schedule was closed'
         return None
     if case['kind'] == 'gen':
         if io['yields'] > 1:
@@ -803,6 +967,12 @@ def oracle(case, io):
 def nontrivial(case, io):
     if not isinstance(io, dict):
         return False
+    if case['kind'] == 'sched':
+        # some generator is started after a later-created one, or not directly after its creation, and >= 2 cells get bound
+        evs = case['events']
+        late = any(e[0] == 'next' and not (k > 0 and evs[k - 1][0] == 'create' and evs[k - 1][1] == e[1]) and
+                   all(x[0] != 'next' or x[1] != e[1] for x in evs[:k]) for k, e in enumerate(evs))
+        return late and io['maxbound'] >= 2
     if case['kind'] == 'gen':
         obs = io['res'][2]
         snap0 = io['res'][1]
@@ -815,6 +985,19 @@ def nontrivial(case, io):
     return io['maxbound'] >= 2 and (io['k'] < len(io['ref']) or e1.startswith('raised'))
 
 def describe(case):
+    if case['kind'] == 'sched':
+        def ev(e):
+            if e[0] != 'create':
+                return '%s g%d' % (e[0], e[1])
+            t = e[2]
+            if t[0] == 'unify':
+                goal = 'unify(%s, %s)' % (terms.show_term(t[1]), terms.show_term(t[2]))
+            elif t[0] == 'arrays':
+                goal = 'unify_arrays([%s], [%s])' % (', '.join(map(terms.show_term, t[1])), ', '.join(map(terms.show_term, t[2])))
+            else:
+                goal = '_G%d.unify(%s)' % (t[1], terms.show_term(t[2]))
+            return 'g%d = %s' % (e[1], goal)
+        return {'events': [ev(e) for e in case['events']], 'style': case.get('style')}
     if case['kind'] == 'gen':
         t = case['target']
         if t[0] == 'unify':
@@ -831,6 +1014,16 @@ def describe(case):
             'mode': case['mode'], 'k': case['k'], 'pyp_raises_at_call': case['j'] if case['mode'] == 'pyraise' else None}
 
 def shrink(case):
+    if case['kind'] == 'sched':
+        evs = case['events']
+        for i in range(len(evs)):
+            if evs[i][0] == 'create':
+                c = dict(case); c['events'] = [e for e in evs if e[1] != evs[i][1]]
+            else:
+                c = dict(case); c['events'] = evs[:i] + evs[i + 1:]
+            if c['events']:
+                yield c
+        return
     for i in range(len(case['stack'])):
         c = dict(case); c['stack'] = case['stack'][:i] + case['stack'][i + 1:]
         yield c
@@ -878,6 +1071,10 @@ def distribution(cases, obs):
     def inc(m, k):
         m[str(k)] = m.get(str(k), 0) + 1
     for c, o in zip(cases, obs):
+        if c['kind'] == 'sched':
+            d['sched'] = d.get('sched', 0) + 1
+            inc(d.setdefault('sched_style', {}), c.get('style'))
+            continue
         d[c['kind']] += 1
         if o == ['cyc-or-deep']:
             d['cyc-or-deep'] += 1
